@@ -63,8 +63,23 @@ def nightly_sysroot():
     return subprocess.check_output(["rustc", "+nightly", "--print", "sysroot"], text=True).strip()
 
 
+def _driver_stale():
+    try:
+        bt = os.path.getmtime(DRIVER)
+    except OSError:
+        return True
+    src = os.path.join(VERIF, "driver")
+    for root, _d, files in os.walk(src):
+        if "/target" in root:
+            continue
+        for f in files:
+            if f.endswith((".rs", ".toml")) and os.path.getmtime(os.path.join(root, f)) > bt:
+                return True
+    return False
+
+
 def ensure_driver():
-    if not os.path.exists(DRIVER):
+    if _driver_stale():
         r = subprocess.run(
             ["cargo", "build", "--release", "--offline"],
             cwd=os.path.join(VERIF, "driver"),
